@@ -1382,6 +1382,16 @@ mod vtrace {
                 u.get()
             })
         }
+        /// the thread field of the terminal events and of the apply cache insertion / hit events: the
+        /// index of a thread of a parallel block, 1000 + a number per OS thread for every other thread
+        fn tkey() -> usize {
+            let t = TID.with(|t| t.get());
+            if t != 99 {
+                t
+            } else {
+                1000 + uid() as usize
+            }
+        }
         static PERMILLE: AtomicU64 = AtomicU64::new(0);
         /// The event log.  `pending` = a run of consecutive apply-cache buckets the collector has
         /// locked (`L`) / is unlocking (`U`): (kind, thread, address of the first bucket, count); it is
@@ -1462,7 +1472,7 @@ mod vtrace {
 
         /// `EV CA|CH <tid> @<bucket address> <operand edges> <value edges> (<node id> <tag>)*`
         fn cache_event(kind: &str, data: &[usize]) -> String {
-            let mut e = format!("EV {kind} {} @{}", TID.with(|t| t.get()), data[0]);
+            let mut e = format!("EV {kind} {} @{}", tkey(), data[0]);
             for d in &data[1..] {
                 e.push(' ');
                 e.push_str(&d.to_string());
@@ -1481,9 +1491,11 @@ mod vtrace {
                 if !SEQ.load(Relaxed) {
                     return;
                 }
-                // C07t, outside a parallel block: terminal events and the collector's phases only
+                // C07t, outside a parallel block: terminal events, apply cache hits (their value edges
+                // are cloned) and the collector's phases only
                 match s {
                     19..=27
+                    | site::CACHE_HIT
                     | site::CACHE_BUCKET_LOCK
                     | site::CACHE_PRE_GC
                     | site::CACHE_PRE_GC_BUCKET
@@ -1510,7 +1522,7 @@ mod vtrace {
                         26 => "TE",
                         _ => "TI",
                     };
-                    let mut e = format!("EV {name} {}", uid());
+                    let mut e = format!("EV {name} {}", tkey());
                     for d in data {
                         e.push(' ');
                         e.push_str(&d.to_string());
